@@ -1,4 +1,4 @@
-import StepModel.P21.ReaderLemmas5
+import StepModel.P21.ReaderLemmas9
 import StepModel.Generated.P21RWGen
 /-! # C03 — the reader never reports a violating file as clean: property theorems
 
@@ -653,6 +653,67 @@ theorem C03_violation_confined_partial {F} (ops : FloatOps F) (lex : LexCfg) (cf
   rintro ⟨x, hx, hb⟩
   rw [C03_exit_iff_worse_than_usermsg, hsev]
   exact errAfter_bad xs x hx hb .null
+
+/-- **confinement with skipped records** (`_partial`, extends `C03_violation_confined_partial` by the violations that end in
+    a record neither pass reads: a keyword that names no entity of the dictionary, or an abstract one; duplicate ids and
+    a missing `=` are not covered).  Records flagged `true` are `Marked` or `Flawed` as before; records flagged `false`
+    are skipped: pass 1 creates nothing for them (`_entsNotCreated`), pass 2 finds no node and skips them
+    (`_entsInvalid`).  Whatever their number and position, every other record is read to exactly the outcome it has on
+    its own, the manager holds exactly the instances of the records that were created, and one skipped record makes
+    p21read exit with 1. -/
+theorem C03_skipped_record_confined_partial {F} (ops : FloatOps F) (lex : LexCfg) (cfg : RWCfg) (d : Dict) (strict : Bool)
+    (hskip : cfg.skipInstanceSkipsComments = true) (hrs : cfg.errorResyncsFromStart = true)
+    (xs : List (Step F × Bool)) (g0 sp gE after : List Byte) (hg0 : Seps g0) (hsp : sp.all isSpace = true) (hgE : Seps gE)
+    (hnd : (xs.map (·.1.r.id)).Nodup)
+    (h1 : ∀ x ∈ xs, if x.2 then Rec1OK d x.1.rg else RecSkip d x.1)
+    (h2 : ∀ x ∈ xs, x.2 = true →
+      Marked { ops := ops, lex := lex, cfg := cfg, dict := d,
+               lookup := Mgr.lookup d ({ insts := (kept xs).map (fun x => mkInst d x.rg) } : Mgr F) } strict x.1 ∨
+      Flawed { ops := ops, lex := lex, cfg := cfg, dict := d,
+               lookup := Mgr.lookup d ({ insts := (kept xs).map (fun x => mkInst d x.rg) } : Mgr F) } strict x.1) :
+    ∃ res, readDataSection ops lex cfg d strict false
+        (g0 ++ renderRecs (recsOfX xs) (endsec sp (gE ++ (endIso ++ 59 :: after)))) = .ok res ∧
+      res.mgr.insts = (kept xs).map (·.out) ∧ res.reported = ((kept xs).map (·.sev)).reverse ∧
+      res.created = (kept xs).length ∧ res.notCreated = nskip xs ∧ res.valid = (kept xs).length ∧ res.invalid = nskip xs ∧
+      (0 < nskip xs → exitStatus res.sev = 1) ∧
+      ((∃ x ∈ kept xs, x.sev.toInt < Sev.usermsg.toInt) → exitStatus res.sev = 1) := by
+  obtain ⟨res, hr, hm, hsev, hc, hnc, hv, hinv, hrep⟩ :=
+    readDataSection_mixed ops lex cfg hskip d strict sp _ hsp (tailOK_endIso gE hgE after) xs g0 hg0 hnd h1
+      (by
+        intro xb hxb
+        obtain ⟨x, b⟩ := xb
+        cases b with
+        | false => simpa using h1 (x, false) hxb
+        | true =>
+          simp only [if_true]
+          rcases h2 (x, true) hxb rfl with ⟨hlex, hg, hscan, qs, e, hqs, hpar, hent, hattrs, hsv, hout⟩ | ⟨hlex, hg, hscan, hle, e, vals, hent, hout, hrd⟩
+          · refine ⟨hg, by rw [hout], by rw [hout]; rfl, ?_⟩
+            intro st l rest hfind hlk hs
+            obtain ⟨l', h⟩ := readInstance_params ops lex cfg d strict hskip st x.r hlex qs hqs
+              (by intro q hq; rw [hlk]; exact hpar q hq) hscan l rest hs (mkInst d x.rg) hfind rfl rfl
+              { name := x.r.name, vals := match d.entity? x.r.name with | some e => defaults e.attrs | none => [] } rfl e hent hattrs
+            refine ⟨l', ?_⟩
+            rw [h, hout, hsv]
+            rfl
+          · refine ⟨hg, by rw [hout], by rw [hout]; rfl, ?_⟩
+            intro st l rest hfind hlk hs
+            obtain ⟨l', h⟩ := C03_error_resync_confines ops lex cfg d strict hrs hskip st x.r hlex hscan l rest false hs
+              (mkInst d x.rg) hfind rfl rfl
+              { name := x.r.name, vals := match d.entity? x.r.name with | some e => defaults e.attrs | none => [] } rfl e hent
+              x.sev vals (by intro L; rw [hlk]; exact hrd L rest) hle
+            refine ⟨l', ?_⟩
+            rw [h, hout]
+            rfl)
+  refine ⟨res, hr, hm, hrep, hc, hnc, hv, hinv, ?_, ?_⟩
+  · intro hpos
+    rw [C03_exit_iff_worse_than_usermsg, hsev, if_pos hpos]
+    exact Int.lt_of_le_of_lt (greater_le_right _ _) (by decide)
+  · rintro ⟨x, hx, hb⟩
+    rw [C03_exit_iff_worse_than_usermsg, hsev]
+    have hbad := errAfter_bad (kept xs) x hx hb
+    split
+    · exact Int.lt_of_le_of_lt (greater_le_left _ _) (hbad _)
+    · exact hbad _
 
 /-! ### which reader flags which violation: the classes for which the model makes it tractable.  Each statement is a
     `ParamRd`: the parameter is read *wherever it stands in a file*, in any layout, with the stated severity, the
